@@ -157,6 +157,8 @@ class ByteArray(SimpleModel):
     @classmethod
     def from_hex(cls, value):
         try:
+            if isinstance(value, six.text_type):
+                value = value.encode('ascii')
             return (unhexlify(_bytes_join(value)),)
         except (TypeError, ValueError):
             raise ValidationError(value)
